@@ -111,6 +111,7 @@ class SimFS(object):
         self.order_rng = order_rng
         self.coarse_dirs = coarse_dirs
         self.sql_busy_limit = sql_busy_limit
+        self.autotick = False             # advance the simulated clock by 1 s after every completed file write
         self.armed = False
         self.installed = False
         self.n_mut = 0
@@ -169,6 +170,8 @@ class SimFS(object):
         if not self.stamp:
             return
         try:
+            if self.autotick:
+                self.clock.advance(1)
             ns = self.clock.stamp_ns()
             _real['utime'](path, ns=(ns, ns))
         except OSError:
